@@ -24,8 +24,8 @@ ASSUMPTIONS = [
     'generated state-aware so that every drawn operation is applicable when drawn',
     'a history is not continued after a refused or crashed operation (the state after a refusal is C19\'s subject)',
 ]
-SHRINK_LISTS = ('ops', 'dirs')
-REQUIRED_CLASSES = ('lf:4', 'through-inserted', 'fam:list', 'fam:view', 'fam:opt', 'fam:val', 'fam:popins', 'fam:copyins', 'popped-node')
+SHRINK_LISTS = ('ops', 'dirs', 'session')
+REQUIRED_CLASSES = ('session', 'lf:4', 'through-inserted', 'fam:list', 'fam:view', 'fam:opt', 'fam:val', 'fam:popins', 'fam:copyins', 'popped-node')
 
 
 def run_case(case: dict) -> Result:
@@ -40,7 +40,72 @@ def run_case(case: dict) -> Result:
         GS.restore_lf(old)
 
 
+def _run_session(case: dict) -> Result:
+    """A longer editing session on one ledger of one-line transactions (C16's session generator, in memory): tags appended, directives popped -
+    mostly at the very beginning -, directives appended or inserted in bulk, with store blocks of 2-8 tokens, so that blocks grow to 1.5 x, shrink
+    to half, merge and re-balance; the invariants are checked on the document after every step and on every popped directive."""
+    import datetime
+    from autobean_refactor import models
+    res = Result()
+    root = common.parse_file(''.join('2000-01-%02d * "n%d"\n' % (i % 28 + 1, i) for i in range(case['n'])))
+    classes = {'session'}
+    for step, op in enumerate(case['session']):
+        n = len(root.raw_directives)
+        popped = None
+        try:
+            if op[0] == 'tags' and n:
+                d = root.raw_directives[op[1] % n]
+                if hasattr(d, 'tags'):
+                    d.tags.extend('t%d-%d' % (op[1], k) for k in range(op[2]))
+            elif op[0] == 'del' and n:
+                popped = root.raw_directives.pop(op[1] % n)
+            elif op[0] == 'app':
+                root.raw_directives.append(models.Close.from_value(datetime.date(2001, 2, 3), 'Assets:New%d' % op[1]))
+            elif op[0] == 'ins':
+                i = op[1] % (n + 1)
+                root.raw_directives_with_comments[i:i] = [models.Close.from_value(datetime.date(2001, 2, 3), 'Assets:Ins%d' % k) for k in range(op[2])]
+            else:
+                continue
+        except Exception as e:  # noqa: BLE001
+            res.bad(f'edit-crashed:session:{op[0]}:{type(e).__name__}', f'step {step} {op} of the session {case["session"][:step + 1]} (n={case["n"]}, blocks of {case["lf"]}) raised {e!r}')
+            break
+        bad = O.invariants(root)
+        if bad:
+            res.bad(f'{bad[0][0]}:session:{op[0]}', f'after step {step} {op} of the session {case["session"][:step + 1]} (n={case["n"]}, blocks of {case["lf"]}): {bad[:3]}')
+            break
+        if popped is not None:
+            classes.add('popped-node')
+            pb = O.invariants(popped, whole_store=True, check_comments=False)
+            if pb:
+                res.bad(f'popped:{pb[0][0]}:session', f'the directive popped at step {step} {op}: {pb[:3]}')
+                break
+    res.classes = sorted(classes)
+    res.nontrivial = len(case['session']) >= 5
+    return res
+
+
+def _build_session(tier: str):
+    def build(rnd: Any) -> dict:
+        lf = rnd.choice([2, 3, 4, 4, 5, 8])
+        ops = []
+        for _ in range(rnd.randint(3, 40 if tier == 'quick' else 80)):
+            r = rnd.random()
+            if r < 0.35:
+                ops.append(['tags', rnd.randint(0, 2000), rnd.randint(1, 2 * lf)])
+            elif r < 0.75:
+                where = rnd.random()
+                ops.append(['del', 0 if where < 0.3 else -1 if where < 0.4 else rnd.randint(0, 2000)])
+            elif r < 0.85:
+                ops.append(['app', rnd.randint(0, 99)])
+            else:
+                ops.append(['ins', rnd.randint(0, 2000), rnd.randint(1, 4)])
+        return {'session': ops, 'n': rnd.randint(3, 30), 'lf': lf}
+    return build
+
+
 def _run_case(case: dict) -> Result:
+    if case.get('session') is not None:
+        return _run_session(case)
     res = Result()
     root = common.parse_case(case)
     if root is None:
@@ -168,6 +233,7 @@ def _build_juggle(tier: str):
 def jobs(tier: str) -> list[Job]:
     return [Job('histories', 'hyp', lambda: _build(tier), 2500 if tier == 'quick' else 120000),
             Job('comment-juggling', 'hyp', lambda: _build_juggle(tier), 1500 if tier == 'quick' else 60000),
+            Job('block-sessions', 'hyp', lambda: _build_session(tier), 1500 if tier == 'quick' else 40000),
             Job('list-sweep', 'enum', sweeps.list_sweep, exhaustive=True),
             Job('slot-sweep', 'enum', sweeps.slot_sweep, exhaustive=True),
             Job('insert-then-edit', 'enum', sweeps.insert_then_edit, exhaustive=True)]
